@@ -144,7 +144,7 @@ def gen_sz(rng, tier):
 
 
 def gen_sv(rng, tier):
-    big = rng.random() < (0.12 if tier == "quick" else 0.2)
+    big = rng.random() < (0.06 if tier == "quick" else 0.2)
     while True:
         d, special = gen_circuit(rng, tier, 6 if big else 4)
         n = pick_node(rng, d, special)
@@ -179,10 +179,12 @@ def generate(rng, tier):
         ins = [f"i{j}" for j in range(m)]
         nodes = [[i, "input", False, []] for i in ins]
         nodes.append(["g", "xor" if m > 1 else "not", True, ins])
-        out.append({"kind": "sv", "circuit": {"name": "top", "nodes": nodes, "bbs": []}, "n": "g"})
         nodes2 = json.loads(json.dumps(nodes))
         nodes2[-1][1] = "and" if m > 1 else "buf"
-        out.append({"kind": "sv", "circuit": {"name": "top", "nodes": nodes2, "bbs": []}, "n": "g"})
+        if tier != "quick" or m != 5:
+            out.append({"kind": "sv", "circuit": {"name": "top", "nodes": nodes, "bbs": []}, "n": "g"})
+        if tier != "quick" or m != 6:
+            out.append({"kind": "sv", "circuit": {"name": "top", "nodes": nodes2, "bbs": []}, "n": "g"})
         out.append({"kind": "inf", "circuit": {"name": "top", "nodes": nodes2, "bbs": []}, "n": "g"})
     return out
 
